@@ -260,6 +260,80 @@ def utMeasAdditive (I : Layout) (K ws : Nat) (M : MMod) : W UTRes := do
       let _ ← cwise "ut(AdditiveMeasurementModel): output.covariance(i) += noise_cov" c ⟨M.rr, M.rr⟩
     pure r
 
+/-! ### GaussianMixture storage: constructor, augmentWithNoise, resize, accessors -/
+
+/-- bookkeeping members and the shapes of the three storage matrices -/
+structure GMStore where
+  K : Nat
+  L : Layout
+  dim : Nat
+  dcov : Nat
+  mean : Shape
+  cov : Shape
+  w : Nat
+deriving DecidableEq, Repr
+
+/-- C11's invariant: storage agrees with the bookkeeping -/
+def GMStore.wf (g : GMStore) : Prop :=
+  g.dim = g.L.dim ∧ g.dcov = g.L.dcov ∧ g.mean = ⟨g.L.dim, g.K⟩ ∧ g.cov = ⟨g.L.dcov, g.L.dcov * g.K⟩ ∧ g.w = g.K
+
+def gmCtor (K dl dc : Nat) (quat : Bool) : GMStore :=
+  let L : Layout := ⟨dl, dc, quat, 0⟩
+  ⟨K, L, L.dim, L.dcov, ⟨L.dim, K⟩, ⟨L.dcov, L.dcov * K⟩, K⟩
+
+/-- `GaussianMixture::augmentWithNoise(noise_covariance_matrix)` (after fix ad6ea89) -/
+def gmAugment (g : GMStore) (noise : Shape) : W (GMStore × Bool) :=
+  if noise.r ≠ noise.c then pure (g, false)
+  else do
+    let dimOld := g.dcov
+    let added := noise.r
+    let L' := g.L.withNoise added
+    let dim := g.dim + added
+    let dcov := g.dcov + added
+    let mean : Shape := ⟨dim, g.mean.c⟩                   -- mean_.conservativeResize(dim, NoChange)
+    let b ← bottomRows "augmentWithNoise: mean_.bottomRows(dim_added)" mean added
+    assignFixed "augmentWithNoise: mean_.bottomRows(dim_added) = Zero(dim_added, components)" b ⟨added, g.K⟩
+    let cov : Shape := ⟨dcov, dcov * g.K⟩                 -- conservativeResizeLike(Zero(dim_covariance, dim_covariance*components))
+    -- for (size_t i = 0; i < components - 1; i++): the bound wraps around when components == 0
+    req "augmentWithNoise: components - 1 (size_t loop bound)" (.lt 0 g.K)
+    forRange (g.K - 1) fun i => do
+      let idx := g.K - 1 - i
+      let nb ← block "augmentWithNoise: covariance_.block(0, i_index*dim_covariance, dim_old, dim_old)" cov 0 (idx * dcov) dimOld dimOld
+      let ob ← block "augmentWithNoise: covariance_.block(0, i_index*dim_old, dim_old, dim_old)" cov 0 (idx * dimOld) dimOld dimOld
+      forRange dimOld fun j => do
+        let _ ← col "augmentWithNoise: new_block.col(j_index)" nb (dimOld - 1 - j)
+        let _ ← col "augmentWithNoise: old_block.col(j_index)" ob (dimOld - 1 - j)
+    forRange g.K fun i => do
+      let nb ← block "augmentWithNoise: covariance_.block(dim_old, i*dim_covariance + dim_old, dim_added, dim_added)" cov dimOld (i * dcov + dimOld) added added
+      assignFixed "augmentWithNoise: covariance_.block(...) = noise_covariance_matrix" nb noise
+      let zb ← block "augmentWithNoise: covariance_.block(0, i*dim_covariance + dim_old, dim_old, dim_added)" cov 0 (i * dcov + dimOld) dimOld added
+      assignFixed "augmentWithNoise: covariance_.block(...) = Zero(dim_old, dim_added)" zb ⟨dimOld, added⟩
+    pure (⟨g.K, L', dim, dcov, mean, cov, g.w⟩, true)
+
+/-- `GaussianMixture::resize(components, dim_linear, dim_circular)` (after fix ad6ea89): only resizing operations -/
+def gmResize (g : GMStore) (K dl dc : Nat) : GMStore :=
+  let L' : Layout := { g.L with dl := dl, dc := dc }
+  let newDim := L'.dim
+  let newDcov := L'.dcov
+  if g.L.dl = dl ∧ g.L.dc = dc ∧ g.K = K then g
+  else if g.dim = newDim ∧ g.dcov = newDcov ∧ g.K ≠ K then
+    ⟨K, L', newDim, newDcov, ⟨g.mean.r, K⟩, ⟨g.cov.r, g.dcov * K⟩, K⟩
+  else
+    ⟨K, L', newDim, newDcov, ⟨newDim, K⟩, ⟨newDcov, newDcov * K⟩, K⟩
+
+def GMStore.tokens (g : GMStore) : List String :=
+  [toString g.K, toString g.dim, toString g.L.dl, toString g.L.dc, toString g.L.dn, toString g.dcov, g.mean.str, g.cov.str, toString g.w]
+
+/-- the accessors with an index: `mean(i)`, `mean(i, j)`, `covariance(i)`, `covariance(i, j, k)`, `weight(i)` -/
+def gmAccess (L : Layout) (K : Nat) (which : String) (i j k : Nat) : W (Option (List String)) :=
+  match which with
+  | "mean1" => do let s ← gmMean L K i; pure (some [s.str, s.str])
+  | "mean2" => do coeff2 "GaussianMixture::mean(i, j): mean_(j, i)" (L.meanS K) j i; pure (some ["1"])
+  | "cov1" => do let s ← gmCov L K i; pure (some [s.str, s.str])
+  | "cov3" => do coeff2 "GaussianMixture::covariance(i, j, k): covariance_(j, dim_covariance*i + k)" (L.covS K) j (L.dcov * i + k); pure (some ["1"])
+  | "w1" => do coeff "GaussianMixture::weight(i): weight_(i)" K i; pure (some ["1"])
+  | _ => pure none
+
 /-! ### correction steps -/
 
 /-- what the harness observes after `correct()` + `getLikelihood()` -/
@@ -311,9 +385,10 @@ def ukfCorrect (additive : Bool) (I : Layout) (K : Nat) (C : Layout) (cK : Nat) 
   else do
     let measSize := M.O.dim                    -- getMeasurementDescription().total_size()
     let r ← (if additive then utMeasAdditive I K ws M
-             else
-               -- pred_state_augmented.augmentWithNoise(noise covariance): square by construction here
-               utMeasGeneric (I.withNoise M.rr) K ws M)
+             else do
+               -- pred_state_augmented = pred_state; pred_state_augmented.augmentWithNoise(noise covariance)
+               let (aug, _) ← gmAugment ⟨K, I, I.dim, I.dcov, I.meanS K, I.covS K, K⟩ ⟨M.rr, M.rr⟩
+               utMeasGeneric aug.L K ws M)
     if !r.valid then pure (corrCopy I K)
     else if !M.ivalid then pure (corrCopy I K)
     else do
@@ -488,78 +563,5 @@ def kfCorrect (I : Layout) (K : Nat) (C : Layout) (cK : Nat) (hm hn ysize : Nat)
     let (lv, ls) ← gaussLikelihood "KFCorrection" inn O K
     pure ⟨C, cK, lv, ls⟩
 
-/-! ### GaussianMixture storage: constructor, augmentWithNoise, resize, accessors -/
-
-/-- bookkeeping members and the shapes of the three storage matrices -/
-structure GMStore where
-  K : Nat
-  L : Layout
-  dim : Nat
-  dcov : Nat
-  mean : Shape
-  cov : Shape
-  w : Nat
-deriving DecidableEq, Repr
-
-/-- C11's invariant: storage agrees with the bookkeeping -/
-def GMStore.wf (g : GMStore) : Prop :=
-  g.dim = g.L.dim ∧ g.dcov = g.L.dcov ∧ g.mean = ⟨g.L.dim, g.K⟩ ∧ g.cov = ⟨g.L.dcov, g.L.dcov * g.K⟩ ∧ g.w = g.K
-
-def gmCtor (K dl dc : Nat) (quat : Bool) : GMStore :=
-  let L : Layout := ⟨dl, dc, quat, 0⟩
-  ⟨K, L, L.dim, L.dcov, ⟨L.dim, K⟩, ⟨L.dcov, L.dcov * K⟩, K⟩
-
-/-- `GaussianMixture::augmentWithNoise(noise_covariance_matrix)` (after fix ad6ea89) -/
-def gmAugment (g : GMStore) (noise : Shape) : W (GMStore × Bool) :=
-  if noise.r ≠ noise.c then pure (g, false)
-  else do
-    let dimOld := g.dcov
-    let added := noise.r
-    let L' := g.L.withNoise added
-    let dim := g.dim + added
-    let dcov := g.dcov + added
-    let mean : Shape := ⟨dim, g.mean.c⟩                   -- mean_.conservativeResize(dim, NoChange)
-    let b ← bottomRows "augmentWithNoise: mean_.bottomRows(dim_added)" mean added
-    assignFixed "augmentWithNoise: mean_.bottomRows(dim_added) = Zero(dim_added, components)" b ⟨added, g.K⟩
-    let cov : Shape := ⟨dcov, dcov * g.K⟩                 -- conservativeResizeLike(Zero(dim_covariance, dim_covariance*components))
-    -- for (size_t i = 0; i < components - 1; i++): the bound wraps around when components == 0
-    req "augmentWithNoise: components - 1 (size_t loop bound)" (.lt 0 g.K)
-    forRange (g.K - 1) fun i => do
-      let idx := g.K - 1 - i
-      let nb ← block "augmentWithNoise: covariance_.block(0, i_index*dim_covariance, dim_old, dim_old)" cov 0 (idx * dcov) dimOld dimOld
-      let ob ← block "augmentWithNoise: covariance_.block(0, i_index*dim_old, dim_old, dim_old)" cov 0 (idx * dimOld) dimOld dimOld
-      forRange dimOld fun j => do
-        let _ ← col "augmentWithNoise: new_block.col(j_index)" nb (dimOld - 1 - j)
-        let _ ← col "augmentWithNoise: old_block.col(j_index)" ob (dimOld - 1 - j)
-    forRange g.K fun i => do
-      let nb ← block "augmentWithNoise: covariance_.block(dim_old, i*dim_covariance + dim_old, dim_added, dim_added)" cov dimOld (i * dcov + dimOld) added added
-      assignFixed "augmentWithNoise: covariance_.block(...) = noise_covariance_matrix" nb noise
-      let zb ← block "augmentWithNoise: covariance_.block(0, i*dim_covariance + dim_old, dim_old, dim_added)" cov 0 (i * dcov + dimOld) dimOld added
-      assignFixed "augmentWithNoise: covariance_.block(...) = Zero(dim_old, dim_added)" zb ⟨dimOld, added⟩
-    pure (⟨g.K, L', dim, dcov, mean, cov, g.w⟩, true)
-
-/-- `GaussianMixture::resize(components, dim_linear, dim_circular)` (after fix ad6ea89): only resizing operations -/
-def gmResize (g : GMStore) (K dl dc : Nat) : GMStore :=
-  let L' : Layout := { g.L with dl := dl, dc := dc }
-  let newDim := L'.dim
-  let newDcov := L'.dcov
-  if g.L.dl = dl ∧ g.L.dc = dc ∧ g.K = K then g
-  else if g.dim = newDim ∧ g.dcov = newDcov ∧ g.K ≠ K then
-    ⟨K, L', newDim, newDcov, ⟨g.mean.r, K⟩, ⟨g.cov.r, g.dcov * K⟩, K⟩
-  else
-    ⟨K, L', newDim, newDcov, ⟨newDim, K⟩, ⟨newDcov, newDcov * K⟩, K⟩
-
-def GMStore.tokens (g : GMStore) : List String :=
-  [toString g.K, toString g.dim, toString g.L.dl, toString g.L.dc, toString g.L.dn, toString g.dcov, g.mean.str, g.cov.str, toString g.w]
-
-/-- the accessors with an index: `mean(i)`, `mean(i, j)`, `covariance(i)`, `covariance(i, j, k)`, `weight(i)` -/
-def gmAccess (L : Layout) (K : Nat) (which : String) (i j k : Nat) : W (Option (List String)) :=
-  match which with
-  | "mean1" => do let s ← gmMean L K i; pure (some [s.str, s.str])
-  | "mean2" => do coeff2 "GaussianMixture::mean(i, j): mean_(j, i)" (L.meanS K) j i; pure (some ["1"])
-  | "cov1" => do let s ← gmCov L K i; pure (some [s.str, s.str])
-  | "cov3" => do coeff2 "GaussianMixture::covariance(i, j, k): covariance_(j, dim_covariance*i + k)" (L.covS K) j (L.dcov * i + k); pure (some ["1"])
-  | "w1" => do coeff "GaussianMixture::weight(i): weight_(i)" K i; pure (some ["1"])
-  | _ => pure none
 
 end BFL.Bounds
